@@ -79,6 +79,9 @@ func plans() []plan {
 		// proxycache whose cache store is harness-owned too: own blobs pre-loaded on the origin only, the
 		// owner's fetch (cache miss) is directly followed by its remove, the cache fill is held (jobSpec.Mode cachemiss)
 		{spec: sp("proxycache-local", map[string]any{"cacheBytes": 300}), mode: "cachemiss", weight: 2, label: "proxycache[memory]"},
+		// union is read-only: pre-loaded subsets (overlapping), clients only read (fetch, stat, batched stat, enumerate);
+		// its StatBlobs funnels the subsets' concurrent answers into one serial stream of callbacks
+		{spec: sp("union", nil, mem(), mem(), mem()), mode: "readonly", weight: 1},
 	}
 }
 
@@ -211,6 +214,8 @@ func run(r *ev.Run) {
 				j.Mode, j.Owners = p.mode, j.Clients
 			} else if p.mode == "queue" || p.mode == "cachemiss" {
 				j.Mode = p.mode
+			} else if p.mode == "readonly" {
+				j.Mode, j.Owners, j.OwnBlobs = p.mode, 0, 0
 			} else if p.mode != "" && h%2 == 0 {
 				j.Mode = p.mode
 				j.PackSafe = p.mode == "packfile" && h%4 == 0
@@ -234,7 +239,7 @@ func run(r *ev.Run) {
 		indexJobs = append(indexJobs, jobSpec{
 			ID: fmt.Sprintf("i%d;", h), Kind: "index", Label: "index+corpus", Seed: irng.Int63n(1 << 40),
 			Permanodes: 3, Claims: 8, Victims: 3, Readers: []int{2, 4, 6, 8, 12}[h%5], Reads: 40 + irng.Intn(41), KV: kvs[h%len(kvs)],
-			Deps: true, Handler: true, Tail: true,
+			Deps: true, Handler: true, Tail: true, Content: true,
 		})
 	}
 	filter := func(js []jobSpec) []jobSpec {
@@ -377,7 +382,11 @@ func run(r *ev.Run) {
 		r.Inconclusive(fmt.Sprintf("%d porcupine timeouts and %d hung histories out of %d histories", linTimeouts, hung, totalHist))
 	}
 	if os.Getenv("VERIF_ONLY") == "" {
-		r.Require("backend_kinds", "memory", "localdisk", "diskpacked", "blobpacked", "encrypt", "replica", "shard", "cond", "overlay", "namespace", "proxycache", "files", "files-queue", "files-queue-rmdir")
+		r.Require("backend_kinds", "memory", "localdisk", "diskpacked", "blobpacked", "encrypt", "replica", "shard", "cond", "overlay", "namespace", "proxycache", "files", "files-queue", "files-queue-rmdir", "union")
+		// one StatBlobs call delivered several callbacks to the client's unsynchronised callback, on every kind of store;
+		// and from more than one goroutine where the store fans the call out
+		r.Require("stat_several_callbacks_kinds", "memory", "localdisk", "diskpacked", "blobpacked", "encrypt", "replica", "shard", "cond", "overlay", "namespace", "proxycache", "files", "files-queue", "files-queue-rmdir", "union")
+		r.Require("stat_callbacks_from_several_goroutines_kinds", "shard", "replica", "diskpacked", "files")
 		r.Require("events", "overlapping-operations", "pack-rollover", "zip-packed", "encrypt-compaction", "index+corpus", "race-logs-located", "race-detector-canary-reported",
 			"own-blob-sequences", "own-blobs-preloaded-on-every-replica", "slow-replica-remove",
 			"queue-empty-dir-removed-by-enumeration", "queue-receive-recreated-removed-dir",
@@ -385,9 +394,12 @@ func run(r *ev.Run) {
 			"vfs-step-yields", "ondisk-kv-yields-leveldb", "ondisk-kv-yields-kv", "ondisk-kv-yields-sqlite",
 			"index-out-of-order-file", "index-out-of-order-directory", "index-out-of-order-permanode2", "index-out-of-order-claim2",
 			"index-dep-lookup-missed", "index-dep-miss-held", "index-miss-acted-on-after-dep-indexed", "index-rows-compared-with-sequential-reference",
-			"index-delete-reindex-held-while-listing", "index-listing-after-deletion-became-visible", "index-sorted-listings-compared-with-sequential-reference")
+			"index-delete-reindex-held-while-listing", "index-listing-after-deletion-became-visible", "index-sorted-listings-compared-with-sequential-reference",
+			"index-readonly-phase-concurrent-readers", "index-readonly-readers-overlapped-in-time",
+			"stat-several-callbacks-in-one-call", "stat-callbacks-from-several-goroutines")
 		r.Require("history_kinds", "store", "store-composition", "index")
-		r.Require("index_ops", "GetBlobMeta", "GetFileInfo", "PermanodeAttrValue", "AppendClaims", "Query", "Query-mod", "Query-created", "EnumeratePermanodesCreated", "EnumeratePermanodesLastModified", "GetRecentPermanodes", "Describe", "GetClaims", "EdgesTo", "GetPermanodesWithAttr")
+		r.Require("index_ops", "GetBlobMeta", "GetFileInfo", "PermanodeAttrValue", "AppendClaims", "Query", "Query-mod", "Query-created", "EnumeratePermanodesCreated", "EnumeratePermanodesLastModified", "GetRecentPermanodes", "Describe", "GetClaims", "EdgesTo", "GetPermanodesWithAttr",
+			"content-PermanodeAnyTime", "content-PermanodeTime", "content-Query-time", "content-Query-created-asc", "content-Query-created")
 	}
 }
 
@@ -445,6 +457,16 @@ func mergeResult(r *ev.Run, res *histResult) {
 	}
 	for _, e := range res.Events {
 		r.Note("events", e)
+		switch e {
+		case "stat-several-callbacks-in-one-call":
+			for _, k := range kindsOfLabel(res.Label) {
+				r.Note("stat_several_callbacks_kinds", k)
+			}
+		case "stat-callbacks-from-several-goroutines":
+			for _, k := range kindsOfLabel(res.Label) {
+				r.Note("stat_callbacks_from_several_goroutines_kinds", k)
+			}
+		}
 	}
 	if res.OverlapKeys > 0 {
 		r.Note("events", "overlapping-operations")
